@@ -255,6 +255,9 @@ def gen_spec(rng):
     spec['tile'] = [rng.randrange(n), rng.randrange(n), z]
     # a refresh rule (mtime of a marker file, ancient unless the harness moves it): tiles can also be rewritten by expiry
     spec['expiry'] = rng.random() < 0.5
+    # time zone of the server process: HTTP dates are GMT whatever the local time is
+    spec['tz'] = rng.choice(['UTC', 'UTC', 'America/New_York', 'Europe/Berlin', 'Asia/Kolkata', 'Pacific/Auckland',
+                             'America/St_Johns', 'Pacific/Honolulu'])
     return spec
 
 
@@ -534,10 +537,19 @@ def run_case(run, case):
     ops = case.get('ops') or gen_ops(rng, spec)
     d = run.subdir('c20')
     h = None
+    old_tz = os.environ.get('TZ')
+    os.environ['TZ'] = spec.get('tz', 'UTC')
+    time.tzset()
     try:
         h = History(run, dict(case, spec=spec, ops=ops), spec, d)
+        run.count('histories_tz_' + spec.get('tz', 'UTC'))
         h.execute(ops)
     finally:
+        if old_tz is None:
+            os.environ.pop('TZ', None)
+        else:
+            os.environ['TZ'] = old_tz
+        time.tzset()
         upstream.install().faults.clear()
         if h is not None and getattr(h, 'tm', None) is not None:
             try:
